@@ -141,6 +141,12 @@ def evalE : Nat → List Sexp → Row → Sexp → Val
       | .list [.atom h, x, y] =>
         if h == "cast" then
           (match x with | .atom t => castVal (tyOfName t) (evalE fuel sch row y) | _ => .null)
+        else if h == "in" then
+          -- `x IN (v1, …, vn)` (evaluator.rs `In([expr, list])`): `x = v1 OR … OR x = vn`, three-valued
+          (match y with
+           | .list (.atom "list" :: vs) =>
+             Val.ofTruth (vs.foldl (fun acc v => or3 acc (sqlEq (evalE fuel sch row x) (evalE fuel sch row v))) (some false))
+           | _ => .null)
         else
         let vx := evalE fuel sch row x
         let vy := evalE fuel sch row y
